@@ -91,6 +91,8 @@ pub fn sig_strat(valid_weight: u32) -> impl Strategy<Value = SigKind> {
         1 => Just(SigKind::HtlcWrongKey),
         1 => Just(SigKind::HtlcWrongFlag),
         1 => Just(SigKind::HtlcOtherDelay),
+        1 => Just(SigKind::HtlcMissingLast),
+        1 => Just(SigKind::HtlcExtra),
     ]
 }
 
